@@ -134,6 +134,9 @@ def enumerate_inputs(item):
         native = (lo <= v <= hi) and v != 0        # the base's own value: the paired full runs (b) use only these
         if not native:
             v = lo + (hi - lo) * 0.37 if hi < 1e12 and lo > -1e12 else 1.0
+        if lo < 0 <= hi and FAMILIES.index(fam) % 2 == 1 if fam in FAMILIES else False:
+            # a figure below zero is an ordinary value where the declared range reaches below zero (and stays below zero in degF)
+            v, native = lo * 0.63, False
         if name == 'Reservoir Depth':
             v = v / 1000.0 if v > 100 else v     # (held in metres after the base was read)
         for user, (dim, sc, off) in cat.items():
@@ -218,7 +221,7 @@ def run(tier: str, only: dict | None = None) -> int:
     jobs = [j for lst in sim.call_in_pool('harness.c06:enumerate_inputs', bases) for j in lst]
     seen, uniq = set(), []
     for j in jobs:   # a parameter is exercised once per (name, unit): the first family that has it
-        k = (j['name'], j['user'])
+        k = (j['name'], j['user'], j['x'] < 0)      # (a figure below zero is a case of its own)
         if k not in seen:
             seen.add(k)
             uniq.append(j)
@@ -314,7 +317,9 @@ def run(tier: str, only: dict | None = None) -> int:
         (VERIF / 'known_findings_C06.candidates.json').write_text(json.dumps({'findings': out}, indent=1) + '\n')
         print(f'calibration: {len(out)} candidate findings written to known_findings_C06.candidates.json')
     # ---- (b) paired full runs on a seeded sample of passing (parameter, unit) cases
-    fam_of = {(j['name'], j['user']): j for j in uniq}
+    fam_of = {}
+    for j in uniq:
+        fam_of.setdefault((j['name'], j['user']), j)
     passing = [t for t in traces if t['kind'] == 'input' and t['outcome'] == 'ok' and 'C06_compute' not in verdicts[t['tid']]['f']
                and fam_of[(t['name'], t['user'])]['native'] and fam_of[(t['name'], t['user'])]['family'] != 'example_SBT_Lo_T']
     rng = random.Random(seed() * 6 + 66)
